@@ -1506,6 +1506,15 @@ get_pure_virtual_funcs(VFunctions &funcs) const {
   for (vfi = vfuncs.begin(); vfi != vfuncs.end(); ++vfi) {
     CPPInstance *inst = (*vfi);
     if ((inst->_storage_class & CPPInstance::SC_pure_virtual) != 0) {
+      CPPFunctionType *ftype = inst->_type->as_function_type();
+      if (ftype != nullptr &&
+          (ftype->_flags & CPPFunctionType::F_destructor) != 0 &&
+          inst != get_destructor()) {
+        // A pure virtual destructor makes only the class that declares it
+        // abstract.  Every derived class overrides it, with its implicit
+        // destructor if it does not declare one.
+        continue;
+      }
       funcs.push_back(inst);
     }
   }
